@@ -3,7 +3,8 @@
 import json, os
 
 HERE = os.path.dirname(os.path.dirname(os.path.abspath(__file__)))
-TECH = "bounded symbolic execution of the real code (proxy values + AST-desugaring import hook) with z3 deciding every branch and assertion; counterexamples replayed natively"
+TECH = ("bounded symbolic execution of the real code (proxy values + AST-desugaring import hook, environment models bound while the module is imported, process-level state reset before every path) "
+        "with z3 deciding every branch and assertion; counterexamples replayed natively")
 NOTE = ("Trusted base: z3; the proxy semantics and environment models (vf/sym*.py, vf/shims.py: BytesIO, struct, int/float/str constructors, "
         "base64, regex) validated by a native twin on every path and by ./check selftest; spec models (vf/spec) validated against google.protobuf "
         "at every path witness. Bounds per tier are in the evidence file (coverage.bounds); nothing is claimed outside them.")
@@ -15,27 +16,33 @@ CLAIMED = {
             "every legal re-encoding produced by the spec encoder (permutation, unpacked, split packed run, padded varints, duplicated scalars, oneof members in any order, "
             "interleaved unknown fields) must decode to the same value. The spec models are checked against google.protobuf in both directions at every path witness.", "4 C02"),
     "C08": ("model_checking", "For (newer, older) schema pairs obtained by deleting subsets of fields and all values within the bounds, z3 shows the older reader/writer round trip is lossless; "
-            "unknown runs with symbolic number, wire type, payload and position are re-emitted byte-identically in arrival order.", "4 C08"),
+            "unknown runs with symbolic number, wire type, payload and position are re-emitted byte-identically in arrival order, accumulate across decodes into one instance and are not shared with copies; "
+            "older schemas of nested types (unknown fields inside sub-messages, list elements, map values, oneof members).", "4 C08"),
     "C09": ("model_checking", "len(m) is kept as a symbolic sum of size_varint terms and proved equal to the concrete length of bytes(m) on every path; dump / SIZE_DELIMITED dump / SerializeToString "
             "are proved equal to bytes(m) and to the spec's varint length prefix.", "4 C09"),
     "C10": ("model_checking", "Sequences of 1-3 messages of mixed types with symbolic values are written with SIZE_DELIMITED and read back; the cut point is a symbolic choice over every byte "
-            "of the stream; every load either raises or returns the written message.", "4 C10"),
+            "of the stream; every load either raises or returns the written message; delimited frames of catalogue shapes (optionals, oneofs, field-less messages) and frames re-written after in-place edits.", "4 C10"),
     "C17": ("model_checking", "Arbitrary symbolic byte strings (and valid encodings with a symbolic truncation point, a symbolic corrupted byte, or a substituted wire type) are fed to parse; a strict "
             "spec decoder decides per path whether the input is malformed (must raise) or well-formed (must decode to the spec's view with well-typed fields, mismatching wire types kept as unknown).", "4 C17"),
     "C04": ("model_checking", "to_dict / from_dict (both casings, classmethod and instance form) are executed on symbolic values: 64-bit ints as opaque decimal strings, bytes through an exact base64 "
-            "model, non-finite doubles by fork; z3 decides per path that the round trip reproduces the message and its bytes. json.dumps/loads are C: the text path runs at every path witness.", "4 C04"),
+            "model, non-finite doubles by fork; z3 decides per path that the round trip reproduces the message and its bytes. The text path (to_json / from_json) is decided on a model of "
+            "json.dumps/loads (serialisability and the value tree the text parses back to), the real json runs at every path witness.", "4 C04"),
     "C05": ("model_checking", "Key clause: for every proto identifier up to the bound, the emitted key is compared with protoc's ToJsonName and the reference's key is mapped back. Value clause: to_dict is "
             "compared with a spec model of the canonical proto3 JSON mapping on every path, and the canonical object is fed back; json_format Parse/MessageToJson run at every witness in both directions.", "4 C05"),
     "C06": ("model_checking", "Every field is put in {never set, default, non-default} through {constructor, attribute, parse, from_dict}; the emitted field numbers and the presence report after decoding are "
             "compared on every path with the proto3 presence rules (spec encoder); HasField/WhichOneof of the reference at every witness.", "4 C06"),
     "C07": ("model_checking", "Inductive step from an arbitrary state satisfying the representation invariant (pre-state written directly into the slots) for each of 8 operations, plus bounded histories "
-            "from a fresh message with environment-chosen operations; invariant and observable clause (which_one_of, AttributeError, wire, JSON) asserted after every step.", "4 C07"),
+            "from a fresh message with environment-chosen operations; the observable clause (which_one_of, AttributeError, wire, JSON) is asserted after every step; the invariant is a proof device "
+            "(a step that does not re-establish it is followed by one more operation and observed again, never reported by itself). Groups with field-less and Timestamp/Duration members included.", "4 C07"),
     "C12": ("model_checking", "The real AsyncChannel runs on the real event loop; the schedule (which gated actor proceeds, cancellation point, whether the loop runs) is a tree of environment choices explored "
             "exhaustively inside the bound, the buffer limit is a solver variable. Bounded exhaustive schedule exploration of the real code, solver prunes only.", "4 C12"),
     "C13": ("model_checking", "Claimed in part: the reference/alias computation of compile/importing.py is executed on symbolic package paths (every character symbolic) and the resulting annotation and import "
-            "lines are interpreted by a model of Python's relative-import semantics; must denote the target module and class, also when two references coexist.", "4 C13"),
+            "lines are interpreted by a model of Python's relative-import semantics; must denote the target module and class, also when two references coexist. The name under which "
+            "plugin/parser.traverse + pythonize_class_name *define* a nested type is decided against the name the reference denotes (symbolic type names). At every witness the reference is "
+            "also resolved by the runtime itself in a real package tree written to disk (native, witness level).", "4 C13"),
     "C14": ("model_checking", "Messages built three ways with symbolic values; each observer (11 of them) and each of copy/deepcopy/pickle(__reduce__) is followed by a snapshot comparison "
-            "(bytes, presence report, oneof selection) decided by z3; mutation of deep copies must leave the original's snapshot unchanged.", "4 C14"),
+            "(bytes, presence report, oneof selection) decided by z3; mutation of deep copies (field assignment or decoding further fields into the copy) must leave the original's snapshot unchanged; "
+            "messages built by a history (constructor with two oneof members, assignment, decode-into) and shapes with field-less sub-message types included.", "4 C14"),
     "C15": ("model_checking", "The four conversion kernels are executed on mathematical integers (LIA back end): one symbolic microsecond count over the whole +-10000-year range and one symbolic UTC offset; "
             "z3 proves (seconds, nanos) equal to the spec formulas and the decode identical. JSON strings (C code) are compared with the reference at witnesses and at boundary constants.", "4 C15"),
     "C19": ("model_checking", "Every identifier [A-Za-z_][A-Za-z0-9_]* up to the bound is one symbolic string; the real casing functions run on it through a symbolic regex matcher driven by CPython's own "
